@@ -371,7 +371,8 @@ impl PrivateBatchProver {
 /// this only improves failure latency and error quality.
 fn ensure_leaf_batch_compatible(proofs: &[ProofWithPublicInputs<F, C, D>]) -> Result<()> {
     use crate::private_batch::circuit::constants::{
-        ASSET_ID_START, BLOCK_HASH_START, NULLIFIER_START, VOLUME_FEE_BPS_START,
+        ASSET_ID_START, BLOCK_HASH_START, EXIT_1_START, EXIT_2_START, NULLIFIER_START,
+        OUTPUT_AMOUNT_1_START, OUTPUT_AMOUNT_2_START, VOLUME_FEE_BPS_START,
     };
     use std::collections::HashMap;
 
@@ -455,6 +456,36 @@ fn ensure_leaf_batch_compatible(proofs: &[ProofWithPublicInputs<F, C, D>]) -> Re
             "every supplied leaf proof is all-dummy (block_hash == 0): such a batch \
              settles nothing; supply at least one real leaf proof"
         );
+    }
+
+    // Mirror the circuit's 32-bit range check on every grouped exit sum: real
+    // slots paying the same exit account are summed in-circuit, and a group
+    // total of 2^32 or more makes the batch unprovable. Dummy slots are masked
+    // to (zero account, 0) by the circuit and contribute nothing.
+    let mut group_sums: HashMap<[u64; 4], u64> = HashMap::new();
+    for (idx, proof) in proofs.iter().enumerate() {
+        if metas[idx].block_hash == [0u64; 4] {
+            continue;
+        }
+        for (exit_start, amount_start) in [
+            (EXIT_1_START, OUTPUT_AMOUNT_1_START),
+            (EXIT_2_START, OUTPUT_AMOUNT_2_START),
+        ] {
+            let exit: [u64; 4] =
+                core::array::from_fn(|i| proof.public_inputs[exit_start + i].to_canonical_u64());
+            let amount = proof.public_inputs[amount_start].to_canonical_u64();
+            let sum = group_sums.entry(exit).or_insert(0);
+            *sum = sum.saturating_add(amount);
+            if *sum > u32::MAX as u64 {
+                bail!(
+                    "leaf proof {} brings the total paid to one exit account to {}, which \
+                     exceeds the 32-bit range the private-batch circuit enforces on every \
+                     grouped exit sum; this batch would only fail during proving",
+                    idx,
+                    *sum
+                );
+            }
+        }
     }
     Ok(())
 }
